@@ -87,6 +87,15 @@ Proof.
     rewrite Hsv in Hall. exact Hall.
 Qed.
 
+(* wave 4: an accepted descriptor contains no write through an iterator / pointer that escaped from the place where it
+   was obtained (AEscape): the "claim under the lock, fill in place outside it" pattern is never accepted *)
+Theorem check_shared_no_escape : forall accs, check_shared accs = true ->
+  forall a, In a accs -> a_kind a <> AEscape.
+Proof.
+  intros accs Hc a Ha. unfold check_shared in Hc. rewrite forallb_forall in Hc.
+  specialize (Hc a Ha). unfold access_ok in Hc. intros E. rewrite E in Hc. discriminate.
+Qed.
+
 Theorem check_region_private : forall r, check_region r = true ->
   forall p, In p (r_private r) -> p_class p <> PStale.
 Proof.
@@ -148,7 +157,7 @@ Proof.
 Qed.
 
 Definition akind_eqb (k k' : akind) : bool :=
-  match k, k' with AElem, AElem | AAppend, AAppend | AOpaque, AOpaque => true | _, _ => false end.
+  match k, k' with AElem, AElem | AAppend, AAppend | AOpaque, AOpaque | AEscape, AEscape => true | _, _ => false end.
 
 Lemma Wd_dec : forall accs i x, Wd accs i x \/ ~ Wd accs i x.
 Proof.
